@@ -18,6 +18,7 @@ mod plans;
 mod scen_client;
 mod scen_disk;
 mod scen_frame;
+mod scen_orch;
 mod scen_wire;
 mod wire;
 
